@@ -194,3 +194,116 @@ pub fn gen_litmus(rng: &mut Rng, pr: &LitmusProfile) -> Program {
     }
     p
 }
+
+/// Classic litmus shapes with per-run random orderings, fences and store->RMW substitutions.
+/// Notation per op: "Wx" store, "Rx" load, "Ux" rmw, "F" fence; x in a..c.
+const TEMPLATES: &[&[&str]] = &[
+    // MP
+    &["Wa Wb", "Rb Ra"],
+    &["Wa F Wb", "Rb F Ra"],
+    // SB
+    &["Wa Rb", "Wb Ra"],
+    &["Wa F Rb", "Wb F Ra"],
+    // LB
+    &["Ra Wb", "Rb Wa"],
+    // IRIW
+    &["Wa", "Wb", "Ra Rb", "Rb Ra"],
+    &["Wa", "Wb", "Ra F Rb", "Rb F Ra"],
+    // WRC
+    &["Wa", "Ra Wb", "Rb Ra"],
+    &["Wa", "Ra Wb", "Rb F Ra"],
+    &["Wa", "Ra F Wb", "Rb F Ra"],
+    // ISA2
+    &["Wa Wb", "Rb Wc", "Rc Ra"],
+    &["Wa Wb", "Rb Wc", "Rc F Ra"],
+    // 2+2W
+    &["Wa Wb", "Wb Wa"],
+    // CoRR / CoWR
+    &["Wa", "Wa", "Ra Ra"],
+    &["Wa", "Wa Ra", "Ra Ra"],
+    // RWC
+    &["Wa", "Ra Rb", "Wb Ra"],
+    &["Wa", "Ra F Rb", "Wb F Ra"],
+    // W+RWC
+    &["Wa Wb", "Rb F Rc", "Wc F Ra"],
+    // release sequence through an RMW
+    &["Wa Wb", "Ub", "Rb Ra"],
+    &["Wa Wb Wb", "Rb Ra"],
+    // RMW vs store, RMW vs RMW
+    &["Ua", "Ua", "Ra"],
+    &["Ua", "Wa", "Ra Ra"],
+    &["Wa Ua", "Ua Ra"],
+    // S, R shapes
+    &["Wa Wb", "Rb Wa"],
+    &["Wa Wb", "Wb Ra"],
+    // 3-location chains
+    &["Wa Wb", "Rb F Wc", "Rc F Ra"],
+    &["Wa F Wb", "Ub Wc", "Rc Ra"],
+];
+
+pub fn gen_litmus_template(rng: &mut Rng) -> Program {
+    let tpl = *rng.pick(TEMPLATES);
+    let pal = *rng.pick(&[Palette::RlxOnly, Palette::RelAcq, Palette::RelAcq, Palette::All, Palette::All]);
+    let mut vs = ValueSrc::new();
+    let nt = tpl.len() + 1;
+    let mut p = Program { atomics: vec![0; 3], ..Default::default() };
+    p.threads = vec![Vec::new(); nt];
+    let mut used = [false; 3];
+    let rmw_subst = rng.chance(1, 5);
+    for (i, th) in tpl.iter().enumerate() {
+        let t = i + 1;
+        for tok in th.split_whitespace() {
+            let b = tok.as_bytes();
+            let loc = if b.len() > 1 { (b[1] - b'a') as usize } else { 0 };
+            let op = match b[0] {
+                b'F' => Op::Fence { o: pick_fence_ord(rng, if pal == Palette::RlxOnly { Palette::RelAcq } else { pal }) },
+                b'R' => {
+                    used[loc] = true;
+                    Op::Load { a: loc as u8, o: pick_load_ord(rng, pal) }
+                }
+                b'W' => {
+                    used[loc] = true;
+                    if rmw_subst && rng.chance(1, 3) {
+                        Op::Swap { a: loc as u8, v: vs.constant(), o: pick_rmw_ord(rng, pal) }
+                    } else {
+                        Op::Store { a: loc as u8, v: vs.constant(), o: pick_store_ord(rng, pal) }
+                    }
+                }
+                b'U' => {
+                    used[loc] = true;
+                    let o = pick_rmw_ord(rng, pal);
+                    match vs.bit() {
+                        Some(bit) if rng.chance(1, 2) => Op::FetchAdd { a: loc as u8, v: bit, o },
+                        _ => Op::Swap { a: loc as u8, v: vs.constant(), o },
+                    }
+                }
+                _ => unreachable!(),
+            };
+            p.threads[t].push(op);
+        }
+    }
+    // drop a fence now and then so that fence-less variants of the fenced shapes appear too
+    if rng.chance(1, 6) {
+        for t in 1..nt {
+            if let Some(i) = p.threads[t].iter().position(|o| matches!(o, Op::Fence { .. })) {
+                if rng.chance(1, 2) {
+                    p.threads[t].remove(i);
+                }
+            }
+        }
+    }
+    let nloc = used.iter().rposition(|&u| u).map(|i| i + 1).unwrap_or(1);
+    p.atomics.truncate(nloc);
+    for t in 1..nt {
+        p.threads[0].push(Op::Spawn { t: t as u8 });
+    }
+    for t in 1..nt {
+        p.threads[0].push(Op::Join { t: t as u8 });
+    }
+    if rng.chance(2, 3) {
+        for a in 0..nloc {
+            p.threads[0].push(Op::Load { a: a as u8, o: MO::Rlx });
+        }
+    }
+    p
+}
